@@ -35,7 +35,7 @@ KDIjepaMaskCollator = _ijepa_mod.KDIjepaMaskCollator
 LEVEL = "exploration"
 RULE = ("alternating DINO / I-JEPA configurations: grids 3..24 (square and non-square), batch sizes 1..8 (B=1 boosted), "
         "DINO: views 1..3 (x as one tensor, as a list of exactly the configured views, or as a multi-crop list with 1..8 extra local crops of another spatial size), mask_prob from {0, 1, k/(B*views), random}, ratio ranges from {scalar, lo=0, hi=1, k/(H*W) ends, "
-        "random}, min_num_patches 1..8, aspect ranges, histories of 1..4 calls on one collator object with constant / shrinking (last partial batch) / growing / there-and-back / arbitrary batch sizes and every clause applied to every call; I-JEPA: encoder/predictor scale ranges, aspect ranges, "
+        "random}, min_num_patches 1..8, aspect ranges, histories of 1..4 calls on one collator object with constant / shrinking (last partial batch) / growing / there-and-back / arbitrary batch sizes and every clause applied to every call; I-JEPA: scalar and (h, w) patch sizes with h != w on square and non-square grids / inputs, encoder/predictor scale ranges, aspect ranges, "
         "1..3 encoder and 1..4 predictor masks, min_keep from {0, largest admissible, random}, tries 1..20, classes "
         "{in-domain, relaxation-prone, one-patch predictor block, empty predictor block (encoder size becomes decodable), "
         "library defaults}, three collators per case (different rng seeds, batch sizes, global RNG states; the third is "
@@ -48,14 +48,14 @@ ASSUMPTIONS = [
     "its scale range, predictor upper bound from the upper end of its scale range and the worse end of its aspect range; if an "
     "observed predictor rectangle exceeds the model the case is not judged for disjointness",
     "min_keep is only driven below the model's smallest encoder block (otherwise no mask can ever have more than min_keep patches; the reference implementation loops forever there as well)",
-    "input sizes are exact multiples of the patch size; at least one encoder and one predictor mask",
+    "input sizes are exact multiples of the patch size per axis (patch sizes are scalars or (height, width) pairs, the grid is input // patch per axis); KDDinoMaskCollator takes the grid itself (mask_size), no patch size; at least one encoder and one predictor mask",
     "predictor scales so small that the block has zero area are treated as legal configurations (int(H*W*scale) == 0)",
     "DINO: the floor / ceil bounds are accepted in float64, float32 and exact rational arithmetic (they differ only when the product is within rounding of an integer)",
     "DINO: which samples get the non-empty masks and lower bounds on mask sizes are not claimed by the property",
     "encoder block size is only observable when the predictor blocks are empty; otherwise the step-only clause is judged on predictor sizes",
     "the ambient-contract layer of DESIGN 1.5 (contracts while the pinned suite runs) is replaced by replaying the two pinned test configurations under the same oracle",
 ]
-MONITORS = ["dino_multicrop_calls", "dino_calls_after_batch_size_change", "ijepa_calls_after_batch_size_change", "dino_calls_checked", "dino_nonempty_masks_seen", "ijepa_calls_checked", "ijepa_pred_rectangles_decoded",
+MONITORS = ["ijepa_cases_with_nonsquare_patch", "dino_multicrop_calls", "dino_calls_after_batch_size_change", "ijepa_calls_after_batch_size_change", "dino_calls_checked", "dino_nonempty_masks_seen", "ijepa_calls_checked", "ijepa_pred_rectangles_decoded",
             "ijepa_disjointness_checked_in_domain", "ijepa_step_size_differential_checked", "ijepa_encoder_size_decoded",
             "batch_passthrough_checked", "step_budget_runs"]
 
@@ -243,14 +243,26 @@ def _gen_ijepa(rng, quick):
             min_keep = rng.choice([0, enc_lb - 1, rng.randint(0, enc_lb - 1), min(10, enc_lb - 1)])
         steps = rng.choice([1, 2, 3, 3, 4])
         spec.update(
-            cls=want, min_keep=min_keep, tries=rng.choice([20, 20, 1, 2, 5, 10]), patch=rng.choice([1, 2, 16]),
+            cls=want, min_keep=min_keep, tries=rng.choice([20, 20, 1, 2, 5, 10]), patch=_patch(rng, H, W),
             B=[_history(rng, cells, steps), _history(rng, cells, steps), rng.choice([1, 2, 3])], steps=steps,
             mode=rng.choice(MODES), ctx_tags=rng.random() < 0.5, return_ctx=rng.random() < 0.95,
             seeds=[rng.randrange(2 ** 31) for _ in range(3)], g=[rng.randrange(2 ** 31) for _ in range(3)],
-            size_form=rng.choice(["int", "tuple"]) if H == W else "tuple",
+            size_form=rng.choice(["int", "tuple"]),
         )
         return spec
     raise core.Inconclusive("I-JEPA generator found no admissible configuration in 60 attempts")
+
+
+def _patch(rng, H, W):
+    """patch size: scalar, or a (height, width) pair with height != width; the grid (H, W) of the spec stays the truth,
+    the input size is derived from it (input = grid * patch per axis)"""
+    r = rng.random()
+    if r < 0.5:
+        return rng.choice([1, 2, 16])
+    if r < 0.65 and H != W:
+        g = math.gcd(H, W)
+        return [W // g, H // g]  # non-square grid, non-square patches, SQUARE input
+    return rng.choice([[1, 2], [2, 1], [8, 16], [16, 8], [2, 3], [3, 2], [4, 1], [16, 14]])
 
 
 def _pinned(quick):
@@ -529,13 +541,20 @@ def _run_ijepa(run, spec):
     in_domain = enc_lb - n_pred * pred_ub > spec["min_keep"]
     if not enc_lb > spec["min_keep"]:
         raise core.Inconclusive(f"harness: spec outside the driven domain (min_keep {spec['min_keep']} >= modelled encoder block {enc_lb})")
-    size = H * patch if spec["size_form"] == "int" and H == W else (H * patch, W * patch)
+    # the grid the masks are judged on is (H, W) of the spec; input and patch size are derived from it independently of
+    # the collator: input = grid * patch per axis
+    ph, pw = patch if isinstance(patch, list) else (patch, patch)
+    size = H * ph if spec["size_form"] == "int" and H * ph == W * pw else (H * ph, W * pw)
+    patch = tuple(patch) if isinstance(patch, list) else patch
+    if ph != pw:
+        run.count("ijepa_cases_with_nonsquare_patch")
     kw = dict(input_size=size, patch_size=patch, encoder_mask_scale=tuple(spec["enc_scale"]), predictor_mask_scale=tuple(spec["pred_scale"]),
               predictor_aspect_ratio=tuple(spec["pred_ar"]), num_enc_masks=n_enc, num_pred_masks=n_pred, min_keep=spec["min_keep"],
               tries=spec["tries"], dataset_mode=spec["mode"], return_ctx=spec["return_ctx"])
     base = f"KDIjepaMaskCollator({kw})"
     mk_cls = "mk0" if spec["min_keep"] == 0 else "mkmax" if enc_lb - n_pred * pred_ub - 1 == spec["min_keep"] else "mk"
-    run.cover("ijepa", spec["cls"], in_domain, "sq" if H == W else "rect", "3" if min(H, W) == 3 else "g", n_enc, n_pred, mk_cls,
+    run.cover("ijepa", spec["cls"], in_domain, "sq" if H == W else "rect", "patch-sq" if ph == pw else "patch-tall" if ph > pw else "patch-wide",
+              "input-sq" if H * ph == W * pw else "input-rect", "3" if min(H, W) == 3 else "g", n_enc, n_pred, mk_cls,
               "B1" if 1 in _as_history(spec["B"][0], spec["steps"]) else "B>1", _hist_class(_as_history(spec["B"][0], spec["steps"])),
               spec["return_ctx"])
 
